@@ -542,3 +542,17 @@ int stale_alias_good(ctl_wr_t* w, int fail) {
     }
     return st;
 }
+
+/* ---- R36 stored bytes vs uncompressed bytes (rules/sizekind.py; the control passes its own member table) */
+typedef struct { long total_stored; long total_plain; long pos; int page_stored; int page_hdr; } ctl_chunk_t;
+int sizekind_bad(const ctl_chunk_t* c) {
+    long consumed = c->pos;
+    consumed += c->page_hdr + c->page_stored;
+    return consumed < c->total_plain;
+}
+int sizekind_good(const ctl_chunk_t* c) {
+    long consumed = c->pos;
+    consumed += c->page_hdr + c->page_stored;
+    long widest = c->total_stored > c->total_plain ? c->total_stored : c->total_plain;
+    return consumed < c->total_stored && widest > 0;
+}
